@@ -9,24 +9,34 @@ from props import c08
 LEVEL = "proof"
 READY = True
 MANIFEST = {
-    "technique": "Coq proof (totality of the codec model on all byte strings) + schema translator + differential "
-                 "correspondence with outcome classes {ok, error, PANIC(recovered), TIMEOUT}",
-    "text": "Theorems: readUint, every Reader.Read* primitive (in every reader state with index <= len(data), arbitrary end) and "
-            "the generated Decode/DecodeStrict of EVERY schema environment return a value or an error on EVERY byte string "
-            "(no out-of-range index/slice, no negative make, loop fuel never exhausted since each iteration consumes a byte); "
-            "instantiated on all structs translated from the repository; Bits.read is safe under the bitmap length check and the "
-            "weighted key selection never panics. Tie: same translator as C08; harness feeds exhaustive short strings, truncations "
-            "of valid messages at every offset, hostile length prefixes/varints and mutations to every generated decoder, and "
-            "malformed keys/bitmaps/proofs to NewBlock/NewTransaction/BLS/certificate/smt.Verify/rmt.VerifyProof; a recovered "
-            "panic or timeout is a violation with the input; decode outcomes are compared with the model in Coq. The same input "
-            "classes go through the real gossip validators/handlers (block, transaction, single commit), fork-choice process, "
-            "verifyAggregateCommit, the sync and txpool RPC handlers, Ed25519 verification and the raw libp2p request/response "
-            "streams; allocation per decode on length-prefix bombs is measured against the proved bound.",
-    "note": "SMT/RMT verification and blst are covered by the harness only (outcome classes), not modelled here; memory/time "
-            "bounds are the model's step/allocation bounds plus the harness watchdog and the measured TotalAlloc per call. Known: "
-            "sync.Downloader.Start does not terminate against a peer sending empty block lists (reported to its owner).",
+    "technique": "Coq proof of totality (explicit Panic / OutOfFuel outcomes) for the decoding layer and the rmt proof index "
+                 "arithmetic + schema translator; everything else: differential/robustness TESTING with outcome classes "
+                 "{ok, error, PANIC(recovered), TIMEOUT, goroutine still in handler, allocation}",
+    "text": "PROVED (Coq, all inputs): (1) readUint, every Reader.Read* primitive in every reader state (index <= len(data), "
+            "arbitrary end) and the generated Decode/DecodeStrict of EVERY schema environment return a value or an error on EVERY "
+            "byte string: no out-of-range index/slice, no negative make, loop fuel never exhausted (one byte consumed per "
+            "iteration), readBytes allocates at most the remaining input; instantiated on all translated structs and named for the "
+            "payload decoders of every network entry point (p2p Message/Request/responseMsg, RawBlock/Block/BlockHeader/"
+            "Transaction/BlockAsset/AggregateCommit, EventPostBlock/EventPostSingleCommits/SingleCommit/Certificate, the sync "
+            "RPC payloads, txpool response, smt/rmt Proof). (2) Bits.read under the bitmap length check and the weighted key "
+            "selection of BLSVerify(Weighted)AggSig never index out of range. (3) rmt calculatePathNodes / VerifyProof index "
+            "arithmetic (newNodeLocation string indexing and ParseInt, getRightSiblingInfo structure[...] loop, "
+            "nodeLocation.index padding loop, binary-search insert, queryHashes[i], sortedIndexes[0], copiedSiblings[0]) never "
+            "panics and its loops terminate within 65 iterations per proof index, for every input and every (getHeight, "
+            "getLayerStructure) with one entry per layer. TESTED ONLY (recover + 3 s watchdog, concrete input on failure): "
+            "the logic after decoding in blockValidator/onBlockReceived/process, verifyBlock, verifyAggregateCommit, "
+            "singleCommitValidator, transactionValidator/onTransactionAnnouncement, the sync and txpool RPC handlers, the libp2p "
+            "request/response stream handlers (also: no goroutine left inside a handler after 2 s, allocation <= 32*len+1MiB per "
+            "stream), smt.Verify/CalculateRoot, rmt root/witness functions, blst BLS verification (incl. nil / infinity / "
+            "off-subgroup points at every position) and Ed25519, sync.Downloader. Tie of the proved models: translator (schemas), "
+            "in-Coq comparison of decoder outcomes, Bits pre-check and rmt ok/error/true/false on the harness streams; allocation "
+            "per decode on length-prefix bombs measured against the proved bound.",
+    "note": "smt.Verify/CalculateRoot index arithmetic is NOT modelled with panic outcomes yet (tested only; C10 owns a functional "
+            "model). getHeight/getLayerStructure are floating-point code: the rmt theorem takes them as parameters with the "
+            "hypothesis len(structure) = height <= 4096. Time: model step bounds + watchdog; memory: proved readBytes bound + measured "
+            "TotalAlloc per call (minimum of 3 runs, measured before any Executer/libp2p host exists in the process).",
 }
-IMPORTS = c08.IMPORTS + "\nFrom LE Require Import Codec.Bits Corr.C09."
+IMPORTS = c08.IMPORTS + "\nFrom LE Require Import Codec.Bits Safe.RmtIndex Corr.C09."
 
 
 def site(r):
@@ -48,22 +58,27 @@ P2P_ALLOC_FACTOR, P2P_ALLOC_CONST = 32, 1 << 20   # whole-process TotalAlloc whi
 ALLOC_FACTOR, ALLOC_CONST = 64, 32768   # bytes allocated by one decode <= 64 * len(input) + 32 KiB
 
 
-def run_p2p(ck, binp, scale, replay_in=None):
+def run_p2p(ck, binp, scale, replay_in=None, background=False, prestarted=None):
     """Raw bytes on the request/response streams of a loopback MessageProtocol. The receiver lives in the harness process: a
     panic in its stream goroutine kills the process; the cases still pending then are the violating inputs."""
     import subprocess
     outp = os.path.join(ck.work, "p2p.jsonl")
-    if os.path.exists(outp):
+    if os.path.exists(outp) and prestarted is None:
         os.remove(outp)
     env = dict(core.GOENV, VERIF_SEED=str(ck.seed), VERIF_TIER=ck.tier)
     args = [binp, "-out", outp, "-parts", "p2p", "-net", str(scale)]
     if replay_in:
         args += ["-in", replay_in]
-    try:
-        p = subprocess.run(args, cwd=ck.work, env=env, stdout=subprocess.DEVNULL, stderr=subprocess.PIPE, timeout=900, text=True)
-        rc, err = p.returncode, p.stderr[-1500:]
-    except subprocess.TimeoutExpired:
-        rc, err = -1, "timeout after 900 s"
+    def execute():
+        try:
+            p = subprocess.run(args, cwd=ck.work, env=env, stdout=subprocess.DEVNULL, stderr=subprocess.PIPE, timeout=900, text=True)
+            return p.returncode, p.stderr[-1500:]
+        except subprocess.TimeoutExpired:
+            return -1, "timeout after 900 s"
+    if background:   # started now, finished later: finish_p2p(ck, future, ...)
+        from concurrent.futures import ThreadPoolExecutor
+        return ThreadPoolExecutor(max_workers=1).submit(execute)
+    rc, err = prestarted.result() if prestarted is not None else execute()
     pending, done, ended, recent = {}, 0, False, []
     per_class = {False: 0, True: 0}
     if os.path.exists(outp):
@@ -120,6 +135,15 @@ def run_p2p(ck, binp, scale, replay_in=None):
                 ck.failures.append(f)
         else:
             ck.fail_obligation("harness-run:p2p", "p2p stream driver exited %s without a pending case: %s" % (rc, err))
+
+
+def rmt_term(r):
+    a, o = r["a"], r["obs"]
+    hl = lambda x: "[" + "; ".join(cbytes(h) for h in x.split(",") if x != "") + "]" if x != "" else "[]"
+    idxs = "[" + "; ".join(v for v in o["idxs"].split(",") if o["idxs"] != "") + "]"
+    ok = (r["res"] == "true") if r["f"] == "rmt.VerifyProof" else (r["res"] == "ok")
+    return "(%s, %s, %s, %s, %s, %s, %d, %s)" % (cbool(r["f"] != "rmt.VerifyProof"), hl(a["hashes"]), o["size"], idxs,
+                                             hl(o["sibs"]), cbytes(a["root"]), r["st"], cbool(ok))
 
 
 def evaluate(ck, recs, sample_cap):
@@ -204,7 +228,24 @@ def evaluate(ck, recs, sample_cap):
                 f["spec_violated"] = spec_bad
                 f["theorem_or_correspondence"] = "Corr.C09.check_bits"
                 ck.failures.append(f)
-    ck.extra["model_agreement_cases"] = len(srecs) + len(brecs)
+    rrecs = [r for r in recs if r["k"] == "v" and r["f"] in ("rmt.VerifyProof", "rmt.CalculateRootFromUpdateData") and r.get("obs")
+             and r["st"] in (0, 2, 3)]
+    res = ck.coq_eval(IMPORTS, "rmt_case", "check_rmt", [rmt_term(r) for r in rrecs], shard=60, tag="c09r")
+    skipped_big = 0
+    if res is not None:
+        for r, code in zip(rrecs, res):
+            if code == 100:
+                skipped_big += 1
+            elif code != 0:
+                spec_bad = code >= 2
+                f = dict(kind="input", key="c09:v:%s:%s" % (r["f"], "spec" if spec_bad else "model"),
+                         what="%s %s on %s" % (r["f"], "panics / hangs" if spec_bad else
+                                               "differs from the total index-arithmetic model (Safe.RmtIndex)", json.dumps(r)[:500]), case=r)
+                f["spec_violated"] = spec_bad
+                f["theorem_or_correspondence"] = "Corr.C09.check_rmt"
+                ck.failures.append(f)
+    ck.extra["rmt_model_cases"] = len(rrecs) - skipped_big
+    ck.extra["model_agreement_cases"] = len(srecs) + len(brecs) + len(rrecs) - skipped_big
     ck.extra["skipped_nfc_undecided"] = skipped
 
 
@@ -229,12 +270,14 @@ def run(ck):
         args, cap, net = ["-exh", "2", "-vals", "1", "-mut", "4", "-ver", "2", "-net", "1"], 1500, 1
     else:
         args, cap, net = ["-exh", "3", "-vals", "4", "-mut", "20", "-ver", "12", "-net", "6"], 20000, 4
+    fut = run_p2p(ck, binp, net, background=True)   # separate process, runs while the main sweep is evaluated
     got = ck.run_harness(binp, args, timeout=1500)
     if got is None:
+        fut.result()
         return
     recs += got
     evaluate(ck, recs, cap)
-    run_p2p(ck, binp, net)
+    run_p2p(ck, binp, net, prestarted=fut)
     for r in [x for x in recs if x["k"] == "s" and x["gen"] == "trunc"][:2] + [x for x in recs if x["k"] == "v"][:2]:
         ck.sample(r)
     ck.cov["rule"] = (
